@@ -38,6 +38,24 @@ CHECKS = {
          "executed from every state: must not raise, must emit exactly the documented codes in order, must leave the flags inactive.",
          "Trusted: modal interpreter; finite value alphabets chosen inside each configured range; listed bounds configurations.",
          "DESIGN.md §5 C06"),
+ "C07": ("E1", "model_checking",
+         "explicit-state BFS over histories of the whole builder API; independent modal interpreter over the emitted lines vs every reported GState field",
+         "All histories up to the depth bound over ~95 state-tracked calls (numeric grid incl. 0) are executed on the real builder; after every call an independent modal "
+         "interpreter of all lines emitted so far is compared with everything GState reports and with get_parameter for every remembered move word.",
+         "Trusted: my modal interpreter (which S/F contexts count), the numeric grid, the depth bound; 'not demanded' fields listed in the evidence assumptions.",
+         "DESIGN.md §5 C07"),
+ "C17": ("E3", "exploration",
+         "exhaustive enumeration of scripted socket behaviours (streams x chunk compositions x no-data-yet placements) through the real Device.readline",
+         "Every byte string over {a,LF} up to the stated length, every fragmentation of it into chunks and every placement of up to two 'no data yet' answers, plus long-stream "
+         "fragmentations around the 256-byte read size, is run through the real socket Device until READ_EOF and compared with the stream cut after each LF.",
+         "Trusted: the scripted socket-file/selector model (read returns bytes | None | b''); finite stream alphabet and lengths; exhaustive only within that script space.",
+         "DESIGN.md §5 C17"),
+ "C18": ("E3", "exploration",
+         "exhaustive enumeration of generated report lines and bounded report histories through the writer's receive callback, against a dict model",
+         "Report lines are generated from structured fields (Marlin position/temperature, Grbl status/probe; field orders, decoys, leading ok) so expected readings are known "
+         "without parsing; each is delivered to the real callback on a fresh writer and after a prior report; all sequences of <=3 (quick) / <=4 (thorough) reports from a 12-report basis are checked against a model.",
+         "Trusted: the report generators' reading of the four families; value list; the callback is taken from the printcore object the writer creates.",
+         "DESIGN.md §5 C18"),
  "C13": ("E1", "model_checking",
          "explicit-state BFS over transformer histories with an independent pure-python 4x4 matrix model stepped in lock-step",
          "All histories of transform/state/context operations up to the depth bound are executed on the real CoordinateTransformer (inside GCodeCore for the context managers); the current, "
